@@ -95,6 +95,10 @@ func (m *Machine) newChan(n int) *Chan {
 }
 
 func (m *Machine) spawn(body func(), name string) *G {
+	if m.events == nil && m.spec.IgnoreGo {
+		m.unmodelled["go statement ignored: "+name]++
+		return nil
+	}
 	if m.events == nil {
 		panic(pathEnd{"engine: go statement in a sequential harness (set conc:true) at " + name})
 	}
